@@ -7,6 +7,7 @@ CONSTANTS
   NoRoot = 0
   HasPayload = {1, 2, 3}
   Deviation = "none"
+  UseNodes = 3
   Retention = 64
   ScenLen = 12
 INVARIANTS ExecHeadSound Emit MapSound LookupRight
